@@ -314,11 +314,36 @@ def ref_induced(J_site, areas, sites, edge_centers):
     return w @ np.asarray(J_site, float)
 
 
+def raw_cell_areas(sites, tri):
+    """Voronoi cell areas from the raw triangulation only: every triangle gives each of its vertices the SIGNED
+    quadrilateral (vertex, midpoint of one edge, circumcentre, midpoint of the other edge); for an obtuse triangle the
+    circumcentre lies outside and the signed pieces still tile the triangle, so the areas sum to the film area."""
+    import numpy as np
+
+    P = sites[tri]
+    A, B, C = P[:, 0], P[:, 1], P[:, 2]
+    d = 2 * (A[:, 0] * (B[:, 1] - C[:, 1]) + B[:, 0] * (C[:, 1] - A[:, 1]) + C[:, 0] * (A[:, 1] - B[:, 1]))
+    a2, b2, c2 = (A * A).sum(1), (B * B).sum(1), (C * C).sum(1)
+    O = np.stack([(a2 * (B[:, 1] - C[:, 1]) + b2 * (C[:, 1] - A[:, 1]) + c2 * (A[:, 1] - B[:, 1])) / d,
+                  (a2 * (C[:, 0] - B[:, 0]) + b2 * (A[:, 0] - C[:, 0]) + c2 * (B[:, 0] - A[:, 0])) / d], axis=1)
+    sgn = np.sign(d)
+
+    def cross(u, v):
+        return u[:, 0] * v[:, 1] - u[:, 1] * v[:, 0]
+
+    out = np.zeros(len(sites))
+    for k in range(3):
+        V, N, Q = P[:, k], P[:, (k + 1) % 3], P[:, (k + 2) % 3]
+        m1, m2 = 0.5 * (V + N), 0.5 * (V + Q)
+        np.add.at(out, tri[:, k], 0.5 * (cross(m1 - V, O - V) + cross(O - V, m2 - V)) * sgn)
+    return out
+
+
 class ScreeningOracle:
     """Reference for the induced potential of a set of edge currents, INDEPENDENT of the code under test: nothing is
     read back from solver / device / mesh helpers (Device.K0, A0, TDGLSolver.areas, Mesh.get_quantity_on_site,
     EdgeMesh.directions ...).  Inputs: the mesh's raw geometry arrays (site coordinates in units of xi, edge index
-    pairs, site areas; the geometry itself is C07's subject) and the layer parameters the harness ASKED for.
+    pairs, triangles; cell areas are recomputed from sites + triangles by raw_cell_areas) and the layer parameters the harness ASKED for.
 
       site current   K_j = 1/2 * mean over the edges e at site j of  J_e * u_e      (u_e = unit vector of edge e;
                      the documented unit-direction-weighted average of edge values, in the solver's units)
@@ -339,7 +364,8 @@ class ScreeningOracle:
         self.centers = 0.5 * (sites[edges[:, 0]] + sites[edges[:, 1]])
         self.count = np.bincount(edges.ravel(), minlength=len(sites)).astype(float)
         Lambda = london_lambda ** 2 / thickness
-        self.weights = np.asarray(mesh.areas, float) * xi ** 2 / (np.pi * Lambda)
+        self.cell_areas = raw_cell_areas(np.asarray(mesh.sites, float), np.asarray(mesh.elements))     # NOT mesh.areas
+        self.weights = self.cell_areas * xi ** 2 / (np.pi * Lambda)
 
     def site_current(self, J_edge):
         np = self.np
@@ -557,12 +583,29 @@ def natural_run(tdgl, p, tmp=None, opts=None):
         so = tdgl.SolverOptions(
             solve_time=sp["solve_time"], dt_init=sp["dt_init"], dt_max=sp.get("dt_max", max(0.1, sp["dt_init"])),
             adaptive=sp.get("adaptive", True), adaptive_window=sp.get("window", 3), include_screening=sp.get("screening", False),
+            max_solve_retries=sp.get("retries", 10), adaptive_time_step_multiplier=sp.get("multiplier", 0.25),
+            max_iterations_per_step=sp.get("maxiter", 1000),
             screening_tolerance=sp.get("tol", 1e-3), screening_step_size=sp.get("alpha", 0.1), screening_step_drag=sp.get("beta", 0.5),
             save_every=sp.get("k", 5), progress_interval=10 ** 9, pause_on_interrupt=False, output_file=str(sandbox / "seed.h5"),
             field_units="mT", current_units="uA")
         seed_solution = tdgl.solve(dev, so, applied_vector_potential=sp.get("field", 0.0), terminal_currents=currents)
         st["seed_max_induced"] = float(np.abs(seed_solution.tdgl_data.induced_vector_potential).max())
         st["seed_last_dt"] = float(seed_solution.dynamics.dt[-1]) if len(seed_solution.dynamics.dt) else None
+        if p.get("postprocess"):
+            # history "post-processing between two runs on one device": field / vector potential of the first solution
+            z = 0.5 * scale * layer_asked["xi"]
+            pos = np.array([[0.0, 0.0, z], [0.3 * scale, -0.2 * scale, 2 * z]])
+            seed_solution.field_at_position(pos, vector=False)
+            seed_solution.vector_potential_at_position(pos)
+            seed_solution = None if p["postprocess"] == "unseeded" else seed_solution
+        if p.get("from_file"):
+            # history "continue from a stored solution": the Solution AND its options are loaded back from the file and
+            # the loaded options object drives the observed run (judged against the literals the harness asked for)
+            loaded = tdgl.Solution.from_hdf5(str(sandbox / "seed.h5"))
+            seed_solution = loaded
+            opts = loaded.options
+            opts.solve_time = p["solve_time"]
+            opts.output_file = str(sandbox / "out.h5")
     P = Patches()
     raised = None
     try:
@@ -609,6 +652,8 @@ def natural_run(tdgl, p, tmp=None, opts=None):
                 q = BOT if not math.isfinite(mism) else int(min(10 ** 8, math.ceil(mism / tol * 1000)))
                 fr = {"ev": "frame", "step": int(g.attrs["step"]), "mism": q, "azero": azero, "mism_over_tol": mism / tol}
                 frames.append(fr)
+    # how tdgl.solve itself ended: a RuntimeError raised inside update must come out of solve
+    ev.append({"ev": "solve", "raised": (raised or "none").split(":")[0] if (raised or "none") in ("none", "euler", "screening") else "other"})
     ev.extend(frames)
     # the options object handed to tdgl.solve is the caller's: it must come back unchanged, field by field
     opts_after = {k: repr(v) for k, v in dataclasses.asdict(opts).items()}
@@ -659,7 +704,7 @@ def natural_history(tdgl, p, tmp=None):
 def strip_trace(t):
     """What TLC needs (floats removed: the JSON reader of the trace module handles ints, strings, booleans)."""
     keep = {"ev", "step", "tent", "a", "dt", "refused", "delta", "k", "v", "conv", "iters", "why", "rels", "pos",
-            "lemax", "isinit", "azero", "mism", "changed"}
+            "lemax", "isinit", "azero", "mism", "changed", "raised"}
     ev = []
     for e in t["ev"]:
         d = {k: v for k, v in e.items() if k in keep}
